@@ -1169,6 +1169,18 @@ def check_growable(chk):
     ops.append(('stringBuilderAppendSized', lambda st: (text.append('xyz'), [Ptr(cell, 'v'), 'xyz', 3])[1]))
     chk.fn('stringBuilderEnsureCapacity')
     run_seq('string builder', it, None, ops, sb_inv)
+    # one large append on a nearly empty builder (growth by more than the current capacity), at several fill levels
+    for fill in (0, 1, 6, 7):
+        for ln in (7, 8, 9, 15, 16, 17, 22, 31, 32, 33, 100, 1000):
+            sb.update(string=0, length=0, capacity=0)
+            text.clear()
+            ops2 = [('stringBuilderInitialize', lambda st: [Ptr(cell, 'v')])]
+            for i in range(fill):
+                ops2.append(('stringBuilderAppendChar', lambda st: (text.append('q'), [Ptr(cell, 'v'), ord('q')])[1]))
+            chunk = ('abcdefghij' * 101)[:ln]
+            ops2.append(('stringBuilderAppendSized', lambda st, chunk=chunk: (text.append(chunk), [Ptr(cell, 'v'), chunk, len(chunk)])[1]))
+            ops2.append(('stringBuilderAppendChar', lambda st: (text.append('!'), [Ptr(cell, 'v'), ord('!')])[1]))
+            run_seq('string builder (fill %d, then one append of %d bytes)' % (fill, ln), it, None, ops2, sb_inv)
     # --- type stack / label stack (real arrayEnsureCapacity + slow path)
     it = machine([ctu, atu])
     ts = {'length': 0, 'capacity': 0, 'valueTypes': 0}
